@@ -373,7 +373,7 @@ class Scratch:
         # native run with the real memchr
         self._unpatch()
         results = {}
-        for prof in ("dev", "release"):
+        for prof in ("dev",):  # `cargo kani playback` has no --release
             cmd = ["cargo", "kani", "playback", "-Z", "concrete-playback", "-p", crate]
             if prof == "release":
                 cmd.append("--release")
